@@ -60,17 +60,17 @@ type Op struct {
 	// DeadlockAt > 0: the n-th driver call (exec/query) issued while this operation runs
 	// fails, once, with SQLSTATE 40P01. The ledger retries a deadlock victim (forgeLogRetry): the
 	// operation is then expected to behave exactly as without the fault (sequence explorers only).
-	DeadlockAt int `json:"deadlockAt,omitempty"`
-	TSOff   *int64                       `json:"tsOffUs,omitempty"` // explicit timestamp = Base + TSOff µs
-	Ref     string                       `json:"ref,omitempty"`
-	IK      string                       `json:"ik,omitempty"`
-	DryRun  bool                         `json:"dryRun,omitempty"`
-	Force   bool                         `json:"force,omitempty"`
-	AtEff   bool                         `json:"atEff,omitempty"`
-	TxID    uint64                       `json:"txID,omitempty"`
-	Address string                       `json:"address,omitempty"`
-	Key     string                       `json:"key,omitempty"`
-	Schema  string                       `json:"schemaVersion,omitempty"`
+	DeadlockAt int    `json:"deadlockAt,omitempty"`
+	TSOff      *int64 `json:"tsOffUs,omitempty"` // explicit timestamp = Base + TSOff µs
+	Ref        string `json:"ref,omitempty"`
+	IK         string `json:"ik,omitempty"`
+	DryRun     bool   `json:"dryRun,omitempty"`
+	Force      bool   `json:"force,omitempty"`
+	AtEff      bool   `json:"atEff,omitempty"`
+	TxID       uint64 `json:"txID,omitempty"`
+	Address    string `json:"address,omitempty"`
+	Key        string `json:"key,omitempty"`
+	Schema     string `json:"schemaVersion,omitempty"`
 	// SchemaData is the raw JSON of a schema for Kind=="schema".
 	SchemaData string `json:"schemaData,omitempty"`
 }
